@@ -200,6 +200,35 @@ func cmdCheck(args []string) int {
 		all = append(all, r.Obls...)
 	}
 	DischargeAll(all, timeout, tier == "thorough", runtime.NumCPU())
+	// rename tolerance: proof hints (invariants, variants, witnesses) that name a local
+	// which no longer exists are rebound if -- and only if -- the function then verifies
+	rebound := false
+	for i, r := range results {
+		if r.fn == nil || r.ct == nil {
+			continue
+		}
+		need := r.Err != nil && unknownIdentRe.MatchString(r.Err.Error())
+		if !need && r.Err == nil && len(r.UnresolvedHints) > 0 {
+			for _, o := range r.Obls {
+				if !o.Cover && !o.MustFail && o.Result != "unsat" {
+					need = true
+				}
+			}
+		}
+		if !need {
+			continue
+		}
+		if nr := rebindVerify(P, db, r.fn, r.ct, r, timeout); nr != nil {
+			results[i] = nr
+			rebound = true
+		}
+	}
+	if rebound {
+		all = all[:0]
+		for _, r := range results {
+			all = append(all, r.Obls...)
+		}
+	}
 
 	golden, gerr := loadGolden(id)
 	if gerr != nil {
